@@ -115,7 +115,7 @@ def base_flags(ctx, obl):
 CBMC_BASE = ["--no-malloc-may-fail", "--no-signed-overflow-check"]
 
 
-def run_obligation(ctx, obl, want_trace=False):
+def run_obligation(ctx, obl, want_trace=False, trace_props=()):
     r = Result(obl)
     t0 = time.time()
     tag = re.sub(r"[^A-Za-z0-9_.-]", "_", obl.name)
@@ -157,7 +157,9 @@ def run_obligation(ctx, obl, want_trace=False):
     if obl.solver:
         cb += [obl.solver] if obl.solver.startswith("--") else ["--external-sat-solver", obl.solver]
     if want_trace:
-        cb += ["--trace", "--stop-on-fail"]
+        cb += ["--trace"]
+        for tp in trace_props:
+            cb += ["--property", tp]
     rc, txt, secs = sh(cb, obl.timeout, obl.mem_gb, out=log)
     r.wall = time.time() - t0
     if rc == -999:
@@ -288,32 +290,42 @@ def build_replay(ctx, obl, res):
     except OSError:
         pass
     if obl.replayable:
-        rt = run_obligation(ctx, obl, want_trace=True)
-        trace = None
-        for pr in getattr(rt, "raw_results", []) or []:
-            if pr.get("status") == "FAILURE" and "trace" in pr:
-                trace = pr["trace"]
-                doc["traced_property"] = pr.get("property")
-                break
-        if trace is not None:
+        plevel, aux, unw = classify(obl, res.failed)
+        cands = sorted(plevel, key=lambda x: (0 if ".assertion." in x[0] else 1))[:3]
+        attempts = []
+        for pid, _ in cands:
+            rt = run_obligation(ctx, obl, want_trace=True, trace_props=[pid])
+            trace = None
+            for pr in getattr(rt, "raw_results", []) or []:
+                if pr.get("status") == "FAILURE" and "trace" in pr:
+                    trace = pr["trace"]
+                    break
+            if trace is None:
+                attempts.append({"property": pid, "trace": "none (%s)" % rt.status})
+                continue
             try:
                 v = extract_inputs(trace)
-                if v is not None:
-                    doc["inputs_c"] = _c_value(v)
             except ValueError as e:
-                doc["inputs_error"] = str(e)
+                doc["inputs_error"] = str(e); v = None
+            if v is None:
+                attempts.append({"property": pid, "trace": "no IN assignment"})
+                continue
+            cand = dict(doc, inputs_c=_c_value(v), traced_property=pid)
+            rc, out = run_replay(ctx, cand)
+            attempts.append({"property": pid, "native_rc": rc})
+            if doc["inputs_c"] is None or rc not in (0, 4, None):
+                doc.update(inputs_c=cand["inputs_c"], traced_property=pid, native_rc=rc,
+                           native_output_tail=out[-3000:])
+                doc["kf_tags"] = sorted(set(re.findall(r"^KF-TAG: (\S+)", out, re.M)))
+            if rc not in (0, 4, None):
+                break
+        doc["replay_attempts"] = attempts
+        if doc["inputs_c"] is not None:
+            res.reproduced = doc.get("native_rc") not in (0, 4, None)
+            doc["reproduced"] = res.reproduced
     with open(path, "w") as f:
         json.dump(doc, f, indent=1)
     res.replay = path
-    if doc["inputs_c"]:
-        rc, out = run_replay(ctx, doc)
-        doc["native_rc"], doc["native_output_tail"] = rc, out[-3000:]
-        res.reproduced = (rc not in (0, 4, None))
-        doc["reproduced"] = res.reproduced
-        m = re.findall(r"^KF-TAG: (\S+)", out, re.M)
-        doc["kf_tags"] = sorted(set(m))
-        with open(path, "w") as f:
-            json.dump(doc, f, indent=1)
     return doc
 
 
